@@ -334,7 +334,8 @@ def repo_root():
 
 
 def make_case(rng, max_steps=40):
-    fw, db, pbs = PAIRS[int(rng.integers(0, len(PAIRS)))]
+    i = int(rng.integers(0, len(PAIRS) + len(AUTO)))
+    fw, db, pbs = PAIRS[i] if i < len(PAIRS) else (AUTO[i - len(PAIRS)], None, [])  # databook None: made by auto_project
     pb = pbs[int(rng.integers(0, len(pbs)))] if pbs and rng.random() < 0.5 else None
     dt = float(DTS[int(rng.integers(0, len(DTS)))])
     steps = int(rng.integers(3, max_steps + 1))
@@ -358,10 +359,13 @@ def build(case):
     import atomica as at
 
     root = repo_root()
-    P = at.Project(framework=os.path.join(root, case["framework"]), databook=os.path.join(root, case["databook"]), do_run=False)
+    rng = np.random.default_rng(case["pseed"])
+    if case["databook"] is None:
+        P = auto_project(case["framework"], np.random.default_rng([case["pseed"], 1]))
+    else:
+        P = at.Project(framework=os.path.join(root, case["framework"]), databook=os.path.join(root, case["databook"]), do_run=False)
     start = float(P.settings.sim_start)
     P.settings.update_time_vector(end=start + case["steps"] * case["dt"], dt=case["dt"])
-    rng = np.random.default_rng(case["pseed"])
     ps = P.parsets[0]
     fwpars = set(P.framework.pars.index)
     mode = case["mode"]
@@ -392,3 +396,108 @@ def build(case):
 
 def describe(case):
     return {k: case[k] for k in ("framework", "databook", "progbook", "dt", "steps", "mode", "budget_factor")}
+
+
+# frameworks shipped without a databook that loads with them: the harness makes one with ProjectData.new and fills it
+AUTO = [
+    "atomica/library/malaria_framework.xlsx",
+    "tests/framework_derivative_test.xlsx",
+    "tests/framework_junction_feed_forward_test.xlsx",
+    "tests/framework_junction_feed_forward_timed_test.xlsx",
+    "tests/framework_junction_remainder_test.xlsx",
+    "tests/framework_junction_remainder_test_2.xlsx",
+    "tests/framework_junction_test.xlsx",
+    "tests/framework_junction_timed_remainder_test.xlsx",
+    "tests/framework_seasonal_test.xlsx",
+    "tests/test_only_junctions_framework.xlsx",
+    "tests/test_shortcut_init_framework_1.xlsx",
+    "tests/test_shortcut_init_framework_2.xlsx",
+    "tests/test_shortcut_init_framework_4.xlsx",
+    "tests/timed_test_indirect2_framework.xlsx",
+    "tests/timed_test_indirect_framework.xlsx",
+    "tests/test_indirect_programs_framework.xlsx",
+    "tests/test_no_initialization.xlsx",
+    "tests/framework_blank_sheet.xlsx",
+]
+
+
+def auto_project(fw_path, rng, pops_per_type=None):
+    """Project for a framework without a databook: ProjectData.new + values (framework defaults where given, otherwise
+    random valid numbers; compartments random and characteristics set to the sum of their members, so that the
+    initialisation is consistent)."""
+    import atomica as at
+    import pandas as pd
+
+    fw = at.ProjectFramework(os.path.join(repo_root(), fw_path))
+    pops = {}
+    for ti, ptype in enumerate(fw.pop_types.keys()):
+        for k in range(int(pops_per_type or rng.integers(1, 3))):
+            pops["grp%s%d" % ("abcd"[ti % 4], k)] = {"label": "Pop %s %d" % (ptype, k), "type": ptype}
+    first = list(fw.pop_types.keys())[0]
+    n_first = len([p for p in pops.values() if p["type"] == first])
+    transfers = 1 if n_first >= 2 and rng.random() < 0.6 else 0
+    data = at.ProjectData.new(fw, np.arange(2000.0, 2004.0), pops=pops, transfers=transfers)
+    comp_val = {}
+
+    def default_of(df, name):
+        v = df.loc[name].get("default value") if "default value" in df.columns else None
+        return None if v is None or pd.isna(v) else float(v)
+
+    for name in fw.comps.index:
+        for pop in pops:
+            d = default_of(fw.comps, name)
+            comp_val[(name, pop)] = d if d is not None else (0.0 if (fw.comps.loc[name]["is junction"] == "y" or fw.comps.loc[name]["is sink"] == "y" or fw.comps.loc[name]["is source"] == "y") else float(np.round(10 ** rng.uniform(0.5, 3.5), 2)))
+    for name, tdve in data.tdve.items():
+        for pop, ts in tdve.ts.items():
+            if ts.has_data:
+                continue
+            if name in fw.comps.index:
+                v = comp_val[(name, pop)]
+            elif name in fw.characs.index:
+                d = default_of(fw.characs, name)
+                members = fw.get_charac_includes(name)
+                num = sum(comp_val[(m, pop)] for m in members)
+                den = fw.characs.loc[name]["denominator"]
+                if isinstance(den, str):
+                    dmem = [den] if den in fw.comps.index else fw.get_charac_includes(den)
+                    dsum = sum(comp_val[(m, pop)] for m in dmem)
+                    v = num / dsum if dsum > 0 else 0.0
+                else:
+                    v = num
+                if d is not None and not isinstance(den, str) and False:
+                    v = d
+            else:
+                row = fw.pars.loc[name]
+                d = default_of(fw.pars, name)
+                fmt = row["format"]
+                if d is not None:
+                    v = d
+                elif fmt in ("probability", "rate"):
+                    v = float(np.round(rng.uniform(0, 0.6), 3))
+                elif fmt == "proportion":
+                    v = float(np.round(rng.uniform(0.05, 1.0), 3))
+                elif fmt == "duration":
+                    v = float(np.round(rng.uniform(0.3, 6.0), 3))
+                elif fmt == "number":
+                    v = float(np.round(rng.uniform(0, 60), 2))
+                else:
+                    v = float(np.round(rng.uniform(0, 1), 3))
+                lo, hi = row.get("minimum value"), row.get("maximum value")
+                if lo is not None and np.isfinite(lo):
+                    v = max(v, float(lo))
+                if hi is not None and np.isfinite(hi):
+                    v = min(v, float(hi))
+            ts.insert(None, v)
+    for tdc in list(data.transfers) + list(data.interpops):
+        for key in list(tdc.ts.keys()) if tdc.type == "interaction" else []:
+            if not tdc.ts[key].has_data:
+                tdc.ts[key].insert(None, float(np.round(rng.uniform(0, 2), 2)))
+        if tdc.type == "transfer":
+            for a in tdc.from_pops:
+                for b in tdc.to_pops:
+                    if a != b and rng.random() < 0.7:
+                        ts = at.TimeSeries(units="probability") if rng.random() < 0.5 else at.TimeSeries(units="number")
+                        ts.insert(None, float(np.round(rng.uniform(0, 0.2), 3)) if ts.units == "probability" else float(np.round(rng.uniform(0, 20), 1)))
+                        tdc.ts[(a, b)] = ts
+    P = at.Project(framework=fw, databook=data.to_spreadsheet(), do_run=False)
+    return P
